@@ -37,48 +37,68 @@ func chainName(blocks [][]int) string {
 
 func (j chainJob) describe(upTo int) string { return chainName(j.blocks[:upTo+1]) + "@" + j.p.id() }
 
+// chainPrestates: the genesis-allocation contract on both chain kinds, and the CREATE2-factory chains (parent block 1
+// creates the contract through the factory and calls set). Quick runs the factory chains on the legacy chain only.
 func chainPrestates() []*prestate {
+	kinds := []string{"legacy+alloc", "galaxias+alloc", "legacy+factory"}
+	if r.Thorough() {
+		kinds = append(kinds, "galaxias+factory")
+	}
 	var out []*prestate
-	for _, p := range buildPrestates([]string{"legacy+alloc", "galaxias+alloc"}) {
-		if p.Name == "genesis" {
+	for _, p := range buildPrestates(kinds) {
+		if strings.HasSuffix(p.Kind, "+factory") == (p.Name == "deployed") {
 			out = append(out, p)
 		}
 	}
 	return out
 }
 
+func isFactory(p *prestate) bool { return strings.HasSuffix(p.Kind, "+factory") }
+
+// chainLettersFor: the factory chains additionally re-create the contract (mk2B).
+func chainLettersFor(p *prestate) []string {
+	if isFactory(p) {
+		if r.Thorough() {
+			// 3-block chains: the revert template is dropped here to keep the thorough tier inside its budget
+			return []string{"", "setB", "clrA", "readB", "killA", "mk2B"}
+		}
+		return append(append([]string{}, chainLetterNames...), "mk2B")
+	}
+	return chainLetterNames
+}
+
 func enumerateChains(pres []*prestate, nBlocks int) []chainJob {
-	var letters [][]int
-	for _, nm := range chainLetterNames {
-		if nm == "" {
-			letters = append(letters, nil)
-			continue
-		}
-		found := false
-		for i, t := range alphabet {
-			if t.Name == nm {
-				letters = append(letters, []int{i})
-				found = true
-			}
-		}
-		if !found {
-			fatal("chain alphabet names a template that does not exist:", nm)
-		}
-	}
 	var jobs []chainJob
-	var rec func(cur [][]int)
-	rec = func(cur [][]int) {
-		if len(cur) == nBlocks {
-			for _, p := range pres {
-				jobs = append(jobs, chainJob{p, append([][]int{}, cur...)})
+	for _, p := range pres {
+		var letters [][]int
+		for _, nm := range chainLettersFor(p) {
+			if nm == "" {
+				letters = append(letters, nil)
+				continue
 			}
-			return
+			found := false
+			for i, t := range alphabet {
+				if t.Name == nm {
+					letters = append(letters, []int{i})
+					found = true
+				}
+			}
+			if !found {
+				fatal("chain alphabet names a template that does not exist:", nm)
+			}
 		}
-		for _, l := range letters {
-			rec(append(cur, l))
+		var rec func(cur [][]int)
+		rec = func(cur [][]int) {
+			if len(cur) == nBlocks {
+				jobs = append(jobs, chainJob{p, append([][]int{}, cur...)})
+				return
+			}
+			for _, l := range letters {
+				rec(append(cur, l))
+			}
 		}
+		rec(nil)
 	}
-	rec(nil)
 	return jobs
 }
 
@@ -91,12 +111,18 @@ type chainVariant struct {
 	// EnableSnap: the node runs WITHOUT snapshots until the restart and with Cfg (snapshots on) afterwards: the snapshot is
 	// regenerated from the head state, so everything written so far is in its disk layer
 	EnableSnap bool `json:"snapshots_enabled_at_restart,omitempty"`
+	// CapEvery: after EVERY block the node applies (parent blocks included) all snapshot diff layers are merged into the disk
+	// layer (Tree.Cap(root, 0)): a long-running node whose layers were flattened, with its disk-layer cache staying warm
+	CapEvery bool `json:"flatten_snapshot_every_block,omitempty"`
 }
 
 func (v chainVariant) String() string {
 	s := v.Cfg.String() + fmt.Sprintf(",rep=%d", v.Rep)
 	if v.Scratch {
 		s += ",own-genesis"
+	}
+	if v.CapEvery {
+		s += ",flatten-every-block"
 	}
 	if v.RestartAfter > 0 {
 		s += fmt.Sprintf(",restart-after-block-%d", v.RestartAfter)
@@ -119,28 +145,43 @@ func (v chainVariant) restartKind() string {
 
 var refChainVariant = chainVariant{Cfg: cfgFromBits(0), Scratch: true}
 
-func chainVariantsFor(nBlocks int) []chainVariant {
-	vs := []chainVariant{refChainVariant, {Cfg: cfgFromBits(0), Rep: 1}, {Cfg: cfgFromBits(0), Rep: 2}}
+func chainVariantsFor(p *prestate, nBlocks int) []chainVariant {
+	c := cfgFromBits
+	vs := []chainVariant{refChainVariant, {Cfg: c(0), Rep: 1}, {Cfg: c(0), Rep: 2}}
 	if r.Quick() {
-		for _, b := range cornerCfgs[1:] {
-			vs = append(vs, chainVariant{Cfg: cfgFromBits(b)})
+		if isFactory(p) {
+			// {snapshots off (above), snapshots on long-running, flattened to disk after every block (pruning and archive),
+			//  flattened + journal and reload before the last block}
+			return append(vs,
+				chainVariant{Cfg: c(0b0010)},
+				chainVariant{Cfg: c(0b0010), CapEvery: true},
+				chainVariant{Cfg: c(0b1111), CapEvery: true},
+				chainVariant{Cfg: c(0b0110), CapEvery: true, RestartAfter: nBlocks - 1})
 		}
-		vs = append(vs,
-			chainVariant{Cfg: cfgFromBits(0b0110), RestartAfter: 1},
-			chainVariant{Cfg: cfgFromBits(0b1111), RestartAfter: 1},
-			chainVariant{Cfg: cfgFromBits(0b0010), RestartAfter: 1, EnableSnap: true})
-		return vs
+		for _, b := range cornerCfgs[1:] {
+			vs = append(vs, chainVariant{Cfg: c(b)})
+		}
+		return append(vs,
+			chainVariant{Cfg: c(0b0110), RestartAfter: 1},
+			chainVariant{Cfg: c(0b1111), RestartAfter: 1},
+			chainVariant{Cfg: c(0b0010), RestartAfter: 1, EnableSnap: true},
+			chainVariant{Cfg: c(0b0110), CapEvery: true})
 	}
 	for b := 1; b < 16; b++ {
-		vs = append(vs, chainVariant{Cfg: cfgFromBits(b)})
+		vs = append(vs, chainVariant{Cfg: c(b)})
+		if c(b).Snapshot && !c(b).NoPrefetch {
+			vs = append(vs, chainVariant{Cfg: c(b), CapEvery: true}) // the prefetch flag is dead configuration: 4 of the 8 snapshot configurations
+		}
 	}
 	for k := 1; k < nBlocks; k++ {
 		for _, b := range cornerCfgs {
-			vs = append(vs, chainVariant{Cfg: cfgFromBits(b), RestartAfter: k})
+			vs = append(vs, chainVariant{Cfg: c(b), RestartAfter: k})
 		}
 		vs = append(vs,
-			chainVariant{Cfg: cfgFromBits(0b0010), RestartAfter: k, EnableSnap: true},
-			chainVariant{Cfg: cfgFromBits(0b0011), RestartAfter: k, EnableSnap: true})
+			chainVariant{Cfg: c(0b0010), RestartAfter: k, EnableSnap: true},
+			chainVariant{Cfg: c(0b0011), RestartAfter: k, EnableSnap: true},
+			chainVariant{Cfg: c(0b0110), RestartAfter: k, CapEvery: true},
+			chainVariant{Cfg: c(0b1111), RestartAfter: k, CapEvery: true})
 	}
 	return vs
 }
@@ -219,7 +260,7 @@ func runChain(p *prestate, wires []*wireBlock, v chainVariant) (out []*obs) {
 	if v.RestartAfter > 0 && v.EnableSnap {
 		cfg.Snapshot = false
 	}
-	n, err := nodeFor(p, variant{Cfg: cfg, Rep: v.Rep, Scratch: v.Scratch})
+	n, err := nodeFor(p, variant{Cfg: cfg, Rep: v.Rep, Scratch: v.Scratch, CapEvery: v.CapEvery})
 	if err != nil {
 		return []*obs{{Err: "node construction: " + firstLine(err.Error())}}
 	}
@@ -284,7 +325,7 @@ func localiseChain(p *prestate, wires []*wireBlock, ref []*obs, v chainVariant, 
 		return "repetition", field, a, b
 	}
 	// the restart alone (reference configuration; for the snapshot-enabling restart: snapshots only)
-	if rk == "restart" && differs(chainVariant{Cfg: refChainVariant.Cfg, RestartAfter: vv.RestartAfter}) {
+	if rk == "restart" && !vv.CapEvery && differs(chainVariant{Cfg: refChainVariant.Cfg, RestartAfter: vv.RestartAfter}) {
 		return rk, field, a, b
 	}
 	names := []string{"trie-dirty-disabled", "snapshot", "preimages", "prefetch"}
@@ -299,7 +340,7 @@ func localiseChain(p *prestate, wires []*wireBlock, ref []*obs, v chainVariant, 
 			if cfgFromBits(1<<bit) != maskCfg(vv.Cfg, bit) {
 				continue
 			}
-			if differs(chainVariant{Cfg: cfgFromBits(1 << bit), RestartAfter: vv.RestartAfter, EnableSnap: vv.EnableSnap}) {
+			if differs(chainVariant{Cfg: cfgFromBits(1 << bit), RestartAfter: vv.RestartAfter, EnableSnap: vv.EnableSnap, CapEvery: vv.CapEvery}) {
 				guilty = append(guilty, names[bit])
 			}
 		}
@@ -308,7 +349,10 @@ func localiseChain(p *prestate, wires []*wireBlock, ref []*obs, v chainVariant, 
 		guilty = set
 	}
 	axis = strings.Join(guilty, "+")
-	if rk != "" && !differs(chainVariant{Cfg: vv.Cfg}) {
+	if vv.CapEvery && !differs(chainVariant{Cfg: vv.Cfg, RestartAfter: vv.RestartAfter, EnableSnap: vv.EnableSnap}) {
+		axis += "+flatten-every-block" // the same variant without the flattening agrees with the reference: it is needed
+	}
+	if rk != "" && !differs(chainVariant{Cfg: vv.Cfg, CapEvery: vv.CapEvery}) {
 		axis += "+" + rk // the same configuration without the restart agrees with the reference: the restart is needed
 	}
 	return axis, field, a, b
@@ -435,6 +479,14 @@ func replayChain(c caseID) bool {
 			vs = append(vs, chainVariant{Cfg: cfgFromBits(b), RestartAfter: k})
 		}
 		vs = append(vs, chainVariant{Cfg: cfgFromBits(0b0010), RestartAfter: k, EnableSnap: true}, chainVariant{Cfg: cfgFromBits(0b0011), RestartAfter: k, EnableSnap: true})
+	}
+	for b := 1; b < 16; b++ {
+		if cfgFromBits(b).Snapshot {
+			vs = append(vs, chainVariant{Cfg: cfgFromBits(b), CapEvery: true})
+		}
+	}
+	for k := 1; k < len(blocks); k++ {
+		vs = append(vs, chainVariant{Cfg: cfgFromBits(0b0110), RestartAfter: k, CapEvery: true}, chainVariant{Cfg: cfgFromBits(0b1111), RestartAfter: k, CapEvery: true})
 	}
 	if c.ChainVariant != nil {
 		vs = append(vs, *c.ChainVariant)
